@@ -159,11 +159,12 @@ func (l *langstring) Exit(key string, ctx *ParsingContext) (bool, error) {
 // whose range refers to rdf:langString as having a natural language map.
 func (l *langstring) markNaturalLanguageMaps(ctx *ParsingContext) {
 	for k, p := range ctx.Result.Vocab.Properties {
-		for i, ref := range p.Range {
+		for _, ref := range p.Range {
 			if ref.Name == langstringSpec && ref.Vocab == l.alias {
+				// The reference stays in the range: the property
+				// generators require the rdf:langString kind.
 				p.NaturalLanguageMap = true
 				ctx.Result.Vocab.Properties[k] = p
-				p.Range = append(p.Range[:i], p.Range[i+1:]...)
 				break
 			}
 		}
